@@ -95,6 +95,24 @@ func (ex *Exec) formatPrecise(format string, args []Iface) (Str, bool) {
 				lit("<nil>")
 				continue
 			}
+			// error / Stringer operands: through their real method
+			done := false
+			if a.t != nil && (verb == 's' || verb == 'v') {
+				for _, name := range []string{"Error", "String"} {
+					m := ex.prog.prog.LookupMethod(a.t, nil, name)
+					if m == nil || m.Signature.Params().Len() != 0 || m.Signature.Results().Len() != 1 {
+						continue
+					}
+					if s, ok := ex.callFunction(m, []Value{a.v}, nil).(Str); ok {
+						res = ex.strConcat(res, s)
+						done = true
+						break
+					}
+				}
+			}
+			if done {
+				continue
+			}
 			return res, false
 		}
 	}
